@@ -63,6 +63,9 @@ type subject struct {
 	// MayRefuse: a request the pinned tree refuses although the reference computes it (C17 only): a Run may fail;
 	// when it does not, its outputs are judged like any other, and nothing it does may disturb concurrent Runs.
 	MayRefuse bool
+	// RefModel: when non-nil, the graph the reference evaluates instead of Model (the same nodes in an order the
+	// sequential reference evaluator can follow)
+	RefModel []byte
 }
 
 // otherWeights returns the model with every float32 initializer replaced by v*0.5+0.25 (nil if there is none).
@@ -270,7 +273,8 @@ func (s *subject) runHistory(seq []int) (v *hx.Violation, states map[uint64]bool
 	var lastOuts, lastFeed gonnx.Tensors
 	var lastExp, lastEFeed, curEFeed map[string]*ref.T
 	firstBits := map[string][]*ref.T{}
-	aHolds := "A" // which value set the caller's A tensor objects currently carry
+	outcomeOK := map[string]bool{} // MayRefuse subjects: feed label -> the request was computed (true) / refused (false)
+	aHolds := "A"                  // which value set the caller's A tensor objects currently carry
 	for step, op := range seq {
 		transitions++
 		var feed gonnx.Tensors
@@ -304,10 +308,16 @@ func (s *subject) runHistory(seq []int) (v *hx.Violation, states map[uint64]bool
 				f2[k] = hx.ToG(t)
 			}
 			o2, err := m2.Run(f2)
+			if err != nil && s.MayRefuse {
+				o2, err = nil, nil // refused on the pinned tree: nothing to compare, what the call left behind is judged below
+			}
 			if err != nil {
 				return mk("history-dependent", fmt.Sprintf("step %d (%s) of %v: Run on the second model failed: %v", step, histOpName(op), seqNames(seq), err)), states, transitions
 			}
 			for _, o := range s.Outs {
+				if o2 == nil {
+					break
+				}
 				rt, e := hx.FromG(o2[o])
 				if e != nil || rt == nil {
 					return mk("nil-output", fmt.Sprintf("step %d (%s) of %v: output %q of the second model nil/unreadable", step, histOpName(op), seqNames(seq), o)), states, transitions
@@ -502,6 +512,20 @@ func (s *subject) runHistory(seq []int) (v *hx.Violation, states map[uint64]bool
 				return mk("outputs-with-error", where+": outputs returned with an error"), states, transitions
 			}
 		} else {
+			if s.MayRefuse {
+				// a request the pinned tree refuses although it is well defined: refusing is fine, but the outcome must not
+				// depend on what happened before (computed once = computed always, refused once = refused always)
+				if prev, seen := outcomeOK[label]; seen && label != "" && prev != (rerr == nil) {
+					return mk("history-dependent", fmt.Sprintf("%s: the same request was %s earlier in this history and is %s now (%v)", where, map[bool]string{true: "computed", false: "refused"}[prev], map[bool]string{true: "computed", false: "refused"}[rerr == nil], rerr)), states, transitions
+				}
+				if label != "" {
+					outcomeOK[label] = rerr == nil
+				}
+				if rerr != nil {
+					lastOuts = nil
+					continue
+				}
+			}
 			if rerr != nil {
 				return mk("history-dependent", fmt.Sprintf("%s: Run failed: %v (a freshly loaded model computes it)", where, rerr)), states, transitions
 			}
@@ -590,11 +614,18 @@ func newSubject(name string, model []byte, feedA map[string]*ref.T, outs []strin
 
 func (s *subject) prepare() error {
 	var err error
-	if s.expA, err = refRunModel(s.Model, s.FeedA); err != nil {
+	rm := s.Model
+	if s.RefModel != nil {
+		rm = s.RefModel
+	}
+	if s.expA, err = refRunModel(rm, s.FeedA); err != nil {
 		return err
 	}
-	if s.expB, err = refRunModel(s.Model, s.FeedB); err != nil {
+	if s.expB, err = refRunModel(rm, s.FeedB); err != nil {
 		return err
+	}
+	if s.RefModel != nil {
+		return nil
 	}
 	if m2 := otherWeights(s.Model); m2 != nil {
 		if e2, err2 := refRunModel(m2, s.FeedA); err2 == nil {
@@ -768,7 +799,7 @@ func checkC02(c *hx.Checker) {
 		"states = distinct (weights + proto + caller tensors) digests observed (1 per subject when the property holds, 2 with the caller's own in-place refill), transitions = operations executed; non-trivial = histories with >= 2 operations", depth, depth)
 	c.Assumptions = []string{"oracle for output values: reference interpreter over the same model bytes (refmodel.go), so state leaking through package-level variables cannot contaminate the expectation",
 		"digest-based pruning is NOT used: a defect may keep its state where the digest cannot see it"}
-	subs := historySubjects(thorough)
+	subs := append(historySubjects(thorough), refusableSubjects()...)
 	checkRepCoverage(repCases())
 	type job struct {
 		s   *subject
@@ -787,6 +818,12 @@ func checkC02(c *hx.Checker) {
 		d := depth
 		if s.Name == "sample:ndm" {
 			d = 2
+		}
+		if strings.Contains(s.Name, "[large") {
+			d = 2 // large operands: short histories (every ordered pair of operations); 3 in the thorough tier
+			if thorough {
+				d = 3
+			}
 		}
 		if !thorough && strings.Contains(s.Name, "[elem=") {
 			d = depth - 1 // the per-element-type variants of an operator's first case: one level less in the quick tier
